@@ -88,15 +88,16 @@ impl<T: Pep508Url> Display for Pep508Error<T> {
             .filter_map(unicode_width::UnicodeWidthChar::width)
             .sum::<usize>();
         let underline_len = if self.start == self.input.len() {
-            // We also allow 0 here for convenience
-            assert!(
-                self.len <= 1,
-                "Can only go one past the input not {}",
-                self.len
-            );
+            // One past the input.
             1
         } else {
-            self.input[self.start..self.start + self.len]
+            // The span length may be a char count or end inside a multi-byte character: clamp it
+            // to the input and to a char boundary, formatting an error must never panic.
+            let mut end = (self.start + self.len).min(self.input.len());
+            while !self.input.is_char_boundary(end) {
+                end -= 1;
+            }
+            self.input[self.start..end.max(self.start)]
                 .chars()
                 .filter_map(unicode_width::UnicodeWidthChar::width)
                 .sum::<usize>()
